@@ -1573,10 +1573,9 @@ func (k *Kernel) sendPHCheckResponse(ctx context.Context, s *kState, req PHCheck
 			// but it's not impossible that we've received it particularly late.
 			k.setPHCheckStatus(s, req, &resp, s.Committing, ViewIDCommitting)
 		} else {
-			panic(fmt.Errorf(
-				"TODO: handle proposed block with round (%d) beyond committing round (%d)",
-				pbRound, committingRound,
-			))
+			// A later round of a height that is already being committed:
+			// nothing proposed there can matter any more.
+			resp.Status = PHCheckRoundTooOld
 		}
 	} else if pbHeight == votingHeight {
 		if pbRound < votingRound {
@@ -1586,10 +1585,8 @@ func (k *Kernel) sendPHCheckResponse(ctx context.Context, s *kState, req PHCheck
 		} else if pbRound == votingRound+1 {
 			k.setPHCheckStatus(s, req, &resp, s.NextRound, ViewIDNextRound)
 		} else {
-			panic(fmt.Errorf(
-				"TODO: handle proposed block with round (%d) beyond voting round (%d)",
-				pbRound, votingRound,
-			))
+			// More than one round ahead of the voting round; we do not track that view.
+			resp.Status = PHCheckRoundTooFarInFuture
 		}
 	} else if pbHeight == votingHeight+1 {
 		// Special case of the proposed block being for the next height.
